@@ -13,7 +13,7 @@ def showTok (t : Token) : String :=
   | .op2 => s!"op2:{t.op}:{t.priority}"
   | .null => "null"
 def showErr : MErr → String
-  | .math p => s!"math {p}" | .zeroDiv => "zerodiv" | .internal t => s!"internal {t}" | .fuel => "FUEL"
+  | .math p => s!"math {p}" | .mathNoPos => "math None" | .zeroDiv => "zerodiv" | .internal t => s!"internal {t}" | .fuel => "FUEL"
 partial def go (h o : IO.FS.Stream) : IO Unit := do
   let line ← h.getLine
   if line.isEmpty then return ()
